@@ -615,6 +615,9 @@ def _verify_body(eng, contract, target, mod, cname, node, res, seed, timeout_ms,
                             break
                     if r is None or r['status'] != 'proved':
                         r = smt.prove(hyps, goal, timeout_ms=timeout_ms, seed=seed, both=both, quick_only=(failed >= 2 or name in KNOWN_OPEN))
+                        if r['status'] == 'undecided' and failed < 2 and name not in KNOWN_OPEN:
+                            # no answer is not a refutation: one patient retry, so that a busy machine does not flip the verdict
+                            r = smt.prove(hyps, goal, timeout_ms=timeout_ms, seed=seed + 7, quick_only=True, patient=True)
                 else:
                     r = smt.refute_qf(hyps, goal, seed=seed)
                 statuses.append(r['status'])
